@@ -288,6 +288,18 @@ func (s *Server) childFromSpec(spec Obj) Obj {
 		}
 		m["annotations"] = am
 	}
+	var owners []interface{}
+	for _, x := range AsList(spec["owners"]) {
+		r := AsMap(x)
+		ref := Obj{"apiVersion": "verif.example/v1", "kind": AsStr(r["kind"]), "name": AsStr(r["name"]), "uid": AsStr(r["uid"])}
+		if AsBool(r["ctrl"]) {
+			ref["controller"] = true
+		}
+		owners = append(owners, ref)
+	}
+	if len(owners) > 0 {
+		m["ownerReferences"] = owners
+	}
 	o["metadata"] = m
 	if sp, ok := spec["spec"]; ok {
 		o["spec"] = normTree(sp)
@@ -333,6 +345,36 @@ func (s *Server) RunHookProg(prog Obj, req Obj) HookReply {
 	case "const", "":
 		for _, c := range AsList(prog["children"]) {
 			kids = append(kids, s.childFromSpec(AsMap(c)))
+		}
+	case "echo":
+		// a hook that hands observed children back as it received them and adds the missing ones
+		obsObjs := map[string]Obj{}
+		for _, g := range AsMap(req[childField]) {
+			for n, o := range AsMap(g) {
+				obsObjs[n] = AsMap(o)
+			}
+		}
+		for _, c := range AsList(prog["children"]) {
+			cm := AsMap(c)
+			name := AsStr(cm["name"])
+			o, ok := obsObjs[name]
+			if !ok {
+				o, ok = obsObjs["ns1/"+name]
+			}
+			if ok {
+				o = CopyObj(o)
+				if AsBool(prog["clean"]) {
+					// a careful echo: everything the API server owns is dropped, the rest (annotations included) is kept
+					m := meta(o)
+					for _, f := range []string{"resourceVersion", "uid", "creationTimestamp", "generation", "managedFields", "selfLink", "ownerReferences"} {
+						delete(m, f)
+					}
+					delete(o, "status")
+				}
+				kids = append(kids, o)
+			} else {
+				kids = append(kids, s.childFromSpec(cm))
+			}
 		}
 	case "byParent":
 		// children named in parent.spec.names, content derived from revisioned and
@@ -380,6 +422,10 @@ func (s *Server) RunHookProg(prog Obj, req Obj) HookReply {
 	}
 	if f, ok := prog["finalized"]; ok {
 		resp["finalized"] = AsBool(f)
+	}
+	if fb, ok := prog["finalizedByRev"]; ok { // finalize programme answering per parent revision
+		rev := AsStr(AsMap(parent["spec"])["rev"])
+		resp["finalized"] = AsBool(AsMap(fb)[rev])
 	}
 	if r, ok := prog["resync"]; ok {
 		resp["resyncAfterSeconds"] = r
